@@ -81,6 +81,26 @@ NetF5 == [id |-> "F5-col-weights", fam |-> "col", ang |-> 0, rot |-> 0, ph |-> <
                       Bump(F5b, 1, 4), Bump(F5b, 1, 6), <<16000000, 8000000, 0>>, <<20000000, 0, 0>>,
                       <<0, 0, 0>>, Neg(Bump(F5b, 3, 11)) >>]
 
+\* an all-integer row naming every station registered FIRST, then a row with halves:
+\* x1 + x2 + x3 <= 40 A, then (x1 + 3 x2 + 2 x3)/2 <= 20 A (an integer-typed matrix would truncate 0.5 and 1.5)
+F6b == <<10000000, 6000000, 6000000>>                \* second row: (10 + 18 + 12)/2 = 20 A, first row 22 A
+NetF6 == [id |-> "F6-col-int-first", fam |-> "col", ang |-> 0, rot |-> 0, ph |-> <<1, 1, 1>>, cd |-> 2,
+          cons |-> << [n |-> <<2, 2, 2>>, lim |-> 40000000], [n |-> <<1, 3, 2>>, lim |-> 20000000] >>,
+          upa |-> 1000000, sq |-> FALSE,
+          tols |-> <<TDef, TZero>>,
+          menu |-> << Bump(F6b, 1, -2), Bump(F6b, 1, 2), Bump(F6b, 1, 18), Bump(F6b, 1, 22),
+                      <<0, 13000000, 0>>, <<0, 14000000, 0>>, <<38000000, 0, 0>>, <<0, 0, 21000000>>,
+                      <<0, 0, 0>>, Neg(Bump(F6b, 1, 22)) >>]
+
+\* a slack row with a huge limit (100 kA: "never binds") registered BEFORE the binding one, relative tolerance
+\* 10 %: the tolerance of a row is a function of ITS OWN limit (0.1 A units, rational comparison)
+NetF7 == [id |-> "F7-col-slack-first", fam |-> "col", ang |-> 0, rot |-> 0, ph |-> <<1, 1, 1>>, cd |-> 1,
+          cons |-> << [n |-> <<1, 1, 1>>, lim |-> 1000000], [n |-> <<1, 0, 0>>, lim |-> 200] >>,
+          upa |-> 10, sq |-> FALSE,
+          tols |-> <<TR10, TA1>>,
+          menu |-> << <<210, 0, 0>>, <<219, 0, 0>>, <<221, 0, 0>>, <<230, 0, 0>>, <<0, 500, 0>>,
+                      <<200, 0, 0>>, <<202, 0, 0>>, <<0, 0, 0>>, <<-230, 0, 0>>, <<201, 300, 300>> >>]
+
 -----------------------------------------------------------------------------
 \* coarse networks (0.1 A).  Eisenstein triples: a^2 - ab + b^2 = 70^2 for (a,b) = (80,30), (80,50);
 \* a^2 + ab + b^2 = 130^2 for (70,80); 70^2 for (30,50).
@@ -91,7 +111,9 @@ NetP1 == [id |-> "P1-ll-abc", fam |-> "ll", ang |-> 0, rot |-> 0, ph |-> <<1, 2,
           tols |-> <<TZero, TA1, TR10>>,
           menu |-> << <<240, 90, 0>>, <<241, 90, 0>>, <<242, 90, 0>>, <<200, 200, 200>>,
                       <<70, 70, 70>>, <<69, 70, 70>>, <<0, 231, 0>>, <<0, 232, 0>>,
-                      <<0, -230, 0>>, <<-100, 50, -100>> >>]
+                      <<0, -230, 0>>, <<-100, 50, -100>>,
+                      \* signed entries that cancel as plain numbers (sum 15 A) but add up as phasors (30 A)
+                      <<150, -150, 150>>, <<100, -110, 100>> >>]
 
 \* line-to-line rotated by 45, mixed signs: (2 x1 - 2 x2)/2 <= 13 A, (x1 + x2 + 2 x3)/2 <= 30 A
 NetP2 == [id |-> "P2-ll-mixed", fam |-> "ll", ang |-> 0, rot |-> 45, ph |-> <<1, 2, 3>>, cd |-> 2,
@@ -143,8 +165,8 @@ NetP7 == [id |-> "P7-ll-quarters", fam |-> "ll", ang |-> 0, rot |-> 160, ph |-> 
                       <<0, 141, 0, 140>>, <<75, 10, 75, 10>>, <<0, 0, 0, 233>>, <<0, 0, 0, 234>>,
                       <<-60, 20, 30, -20>>, <<0, 0, 0, 0>> >>]
 
-NetsAll == <<NetF1, NetF2, NetF3, NetF4, NetF5, NetP1, NetP2, NetP3, NetP4, NetP5, NetP6, NetP7>>
-NetsQuick == <<NetF1, NetF2, NetF3, NetF5, NetP1, NetP2, NetP3, NetP5, NetP6>>
+NetsAll == <<NetF1, NetF2, NetF3, NetF4, NetF5, NetF6, NetF7, NetP1, NetP2, NetP3, NetP4, NetP5, NetP6, NetP7>>
+NetsQuick == <<NetF1, NetF2, NetF3, NetF5, NetF6, NetF7, NetP1, NetP2, NetP3, NetP5, NetP6>>
 
 DropsAll == {{}, {1}, {2, 3}}
 DropsQuick == {{}, {2}}
